@@ -101,6 +101,25 @@ def run(ctx):
                            lambda n: n.get("k") == "mcall" and cname(n) == "ktio::mmap::MMWriter::write_at", "row write")
 
 
+def success_value(t):
+    """value of a fallible expression on its success path: try(match r { Err(_) => Err(..), Ok(v) => X }) -> X with the
+    leaves' Ok(..) removed (an error arm leaves through `?` and chooses nothing)"""
+    if t[0] != "try":
+        return t
+    m = t[1]
+    if m[0] == "match":
+        arms = [(p_, b_) for p_, b_ in m[2:] if not (p_[0] == "ptstruct" and p_[1].endswith("::Err"))]
+        if len(arms) == 1 and arms[0][0][0] == "ptstruct" and arms[0][0][1].endswith("::Ok"):
+            return map_leaves(arms[0][1], lambda x: x[2] if x[0] == "call" and x[1].endswith("::Ok") and len(x) == 3 else x)
+    return t
+
+
+def map_leaves(t, f):
+    if t[0] == "if":
+        return ("if", t[1], map_leaves(t[2], f), map_leaves(t[3], f))
+    return f(t)
+
+
 def sniff_rule(ctx, path):
     fv = ctx.need("C16.S", path)
     if fv is None:
@@ -134,6 +153,7 @@ def sniff_rule(ctx, path):
     # the format handed to Sequences::new is a two-way choice on the sniffed first byte: '>' -> Fasta, else Fastq
     news = fv.calls_to("ktio::seq::Sequences::new")
     ft = fv.term(news[0]["args"][0]) if news else ("none",)
+    ft = success_value(ft)
     fmt = [n for n in fv.nodes if n.get("k") in ("if", "match") and fv.term(n) == ft]
     leaves = if_leaves(ft) if ft[0] == "if" else ([b for _, b in ft[2:]] if ft[0] == "match" else [])
     ok = len(news) == 1 and contains(ft, lambda s: s[0] == "call" and s[1].endswith("BufRead::fill_buf")) \
